@@ -342,6 +342,18 @@ def oracle_op4(case, R):
                        and list(ts) == [mtypes[k] for k in idx], "subset_listing", f"{ns} want {want}"):
                 for kk, k in enumerate(idx):
                     same(ms[kk], refs[k], "subset", k)
+            # dictionary mode: the named subset equals the full dictionary read filtered by name (for a repeated
+            # name that is the LAST occurrence, wherever the other requested names sit in the file)
+            dsub = op4.load(path, namelist=arg, sparse=smode)
+            wkeys = [n for n in d.keys() if n in want]
+            if R.check(list(dsub.keys()) == wkeys, "subset_dct_keys", f"{list(dsub.keys())} want {wkeys}"):
+                for n in wkeys:
+                    same(dsub[n][0], refs[last[n]], "subset_dct", last[n])
+                    R.check(dsub[n][1] == forms[last[n]] and dsub[n][2] == mtypes[last[n]], "subset_dct_meta", n)
+            rsub = op4.read(path, namelist=arg, sparse=smode)
+            if R.check(list(rsub.keys()) == wkeys, "subset_read_keys", f"{list(rsub.keys())} want {wkeys}"):
+                for n in wkeys:
+                    same(rsub[n], refs[last[n]], "subset_read", last[n])
         ns, ms, fs, ts = op4.load(path, namelist=["zzabsent"], into="list")
         R.check(ns == [] and ms == [], "absent_name", f"{ns}")
     finally:
